@@ -20,9 +20,10 @@ PROPS = {
             'the four `From<..> for ..` impls that map a Vec through `.into_iter().map(Into::into).collect()` are verified as free-function copies of the same body text; the impl itself carries the proved clauses as an assumed contract (A-cut-03, R26)',
         ]),
     'C19': dict(
-        units=['reflection'], level='proof',
+        witness=[dict(append_to='tonic-reflection/src/server/mod.rs', module='replay/reflection_witness.rs', crate='tonic-reflection', filter='verif_witness_reflection', features=['--features', 'tonic/router'])],
+        units=['reflection', 'reflsvc'], level='proof',
         not_covered=[
-            'the async request loop server_reflection_info of v1.rs / v1alpha.rs (tokio::spawn, mpsc, Streaming): that each MessageRequest variant is answered by the matching lookup, and that v1 and v1alpha give the same answers (the two files are textually parallel; not decided here)',
+            'the request loop of v1.rs / v1alpha.rs IS under contract (unit reflsvc): the async block handed to tokio::spawn is verified as an async fn of its captured variables (R28), over a cursor model of the request stream (A-tonic-decode-03) and a ghost log of the response channel (A-tokio-02); both versions are proved against the same answer function (the two files are textually parallel). tokio::spawn itself, task scheduling, and a response receiver that has gone away (the real expect("send") then panics inside the task, A-tokio-03) are outside; the lookups are linked through the contracts proved in unit reflection (A-tonic-refl-01)',
             'prost: FileDescriptorSet::decode and Message::encode are uninterpreted (A-prost-02/03), so "decodes to what was registered" is covered only up to prost encode/decode being inverse; the descriptor structs are shims with the fields the index reads (A-prost-01)',
             'extensions are not indexed by tonic (FileContainingExtension answers NOT_FOUND): outside the statement',
             'the service list for use_all_service_names == true is proved per file (process_file P3: exactly the declared services in order); ReflectionServiceState::new proves the explicit-names case, the union over files is not restated there',
